@@ -185,6 +185,27 @@ def run(k, n, threads, name=None, reverse=False):
         open(path, "w").write(orig)
 
 
+def one(mid, checks):
+    """runs the given checks on one mutant in the scratch worker and prints their VIOLATION lines"""
+    w = f"{ROOT}/scratch"
+    os.makedirs(w, exist_ok=True)
+    sh(f"rsync -a --delete --exclude target --exclude .git /repo/ {w}/repo/")
+    sh(f"rsync -a --delete --exclude target --exclude .git --exclude seeded --exclude replay /verif/ {w}/verif/")
+    sh(f"sed -i 's#path = \"/repo\"#path = \"{w}/repo\"#' {w}/verif/harness/Cargo.toml")
+    env = {"CARGO_TARGET_DIR": f"{w}/vtarget", "VERIF_DIR": f"{w}/verif", "CARGO_NET_OFFLINE": "true", "VERIF_LIST_ALL": "1"}
+    m = [json.loads(l) for l in open(f"{ROOT}/mutants.jsonl")][mid]
+    path = f"{w}/repo/src/{m['file']}"
+    lines = open(path).read().split("\n")
+    assert lines[m["line"] - 1] == m["old"]
+    lines[m["line"] - 1] = m["new"]
+    open(path, "w").write("\n".join(lines))
+    print(m["file"], m["line"], m["op"])
+    for c in checks:
+        rc, out = sh(f"{w}/verif/check {c} quick", env, timeout=1800)
+        vl = [l[:260] for l in out.split("\n") if "site=" in l or "quick:" in l or "error" in l[:8]]
+        print(c, "exit", rc, "\n  " + "\n  ".join(vl[:8]))
+
+
 def report():
     rs = [json.loads(l) for l in open(f"{ROOT}/results.jsonl")]
     from collections import Counter
@@ -202,5 +223,7 @@ if __name__ == "__main__":
         gen(int(sys.argv[2]) if len(sys.argv) > 2 else 400)
     elif sys.argv[1] == "run":
         run(int(sys.argv[2]), int(sys.argv[3]), int(sys.argv[4]) if len(sys.argv) > 4 else 4, sys.argv[5] if len(sys.argv) > 5 else None, len(sys.argv) > 6)
+    elif sys.argv[1] == "one":
+        one(int(sys.argv[2]), sys.argv[3:])
     else:
         report()
